@@ -1,0 +1,142 @@
+//go:build verif
+
+// Contracts for package handshake, checked by /verif/govc (contract-based
+// deductive verification). Compiled only with -tags verif. The //@ blocks are
+// the contracts; the Go functions are specification functions.
+
+package handshake
+
+import (
+	"bytes"
+
+	"github.com/flynn/noise"
+	"github.com/slackhq/nebula/cert"
+)
+
+var (
+	_ = bytes.Equal
+	_ *noise.HandshakeState
+	_ cert.Certificate
+)
+
+//@ load github.com/flynn/noise
+
+// ---- contract vocabulary (evaluated symbolically by govc, never executed) ----
+
+func old[T any](x T) T        { return x }
+func implies(a, b bool) bool  { return !a || b }
+func same[T any](a, b T) bool { return true }
+
+// =====================================================================
+// C07 — a rejected handshake message never wedges the handshake
+// C05 — a handshake completes only with an authenticated peer
+// =====================================================================
+//
+// The Machine's error contract (machine.go): an error with Failed() false
+// means the noise state was not advanced. The Machine side of that claim is
+// proved here: a failed Machine refuses every input and stays failed; every
+// error raised after noise's ReadMessage returned successfully (`readok`
+// counts those) marks the Machine failed; so an error with Failed() false was
+// raised before ReadMessage took effect or by ReadMessage itself. Whether
+// ReadMessage leaves its state unchanged when IT fails is the contract of the
+// dependency, checked against flynn/noise's own source (extspec/): it does
+// not hold on every path (known finding).
+//
+// Completion (C05): ProcessPacket returns a Result only if a payload and a
+// peer certificate were accepted in this handshake; validateCert accepts a
+// certificate only if it was recombined from the payload's certificate bytes
+// with exactly the static key noise authenticated for the peer, its public
+// key equals that static key, and the caller's verifier (the CA pool check,
+// C01) returned it without error; the Result reports the verifier's output.
+
+//@ func github.com/flynn/noise.(*HandshakeState).MessageIndex
+//@   trusted accessor (the index changes with every message read or written: no determinism is assumed)
+//@   assigns nothing
+//@ func github.com/flynn/noise.(*HandshakeState).PeerStatic
+//@   trusted accessor: the static public key noise received (and authenticated through the DH mixes) from the peer
+//@   ensures same(result, s.PeerStatic())
+//@   assigns nothing
+//@ func UnmarshalPayload
+//@   trusted protobuf-style decoding of the handshake payload (C08)
+//@   assigns nothing
+//@ func github.com/slackhq/nebula/cert.Recombine
+//@   trusted rebuilds a certificate from its wire details and a public key (cert package)
+//@   effect recombined if result1 == nil
+//@   ensures implies(result1 == nil, result0 != nil)
+//@   assigns nothing
+//@ func github.com/slackhq/nebula/cert.(Certificate).PublicKey
+//@   trusted accessor of an immutable certificate
+//@   ensures same(result, self.PublicKey())
+//@   assigns nothing
+//@ func github.com/slackhq/nebula/cert.(Certificate).Version
+//@   trusted accessor of an immutable certificate
+//@   ensures result == self.Version()
+//@   assigns nothing
+//@ func github.com/slackhq/nebula/cert.(Certificate).Curve
+//@   trusted accessor of an immutable certificate
+//@   ensures result == self.Curve()
+//@   assigns nothing
+
+//@ func (*Machine).peerMsgFlags
+//@   inline
+//@ func (*Machine).myMsgFlags
+//@   inline
+//@ func (*Machine).completed
+//@   inline
+//@ func (*Machine).buildResponse
+//@   trusted builds and noise-encrypts the next outgoing message (allocates the local index on first use); does not touch the acceptance flags
+//@   assigns m.indexAllocated, m.result.LocalIndex, m.result.MyCert
+
+//@ func (*Machine).processPayload
+//@   props C05 C07
+//@   requires m != nil && m.hs != nil && m.result != nil
+//@   callback getCred(v) pure
+//@   callback getCred(v) returns implies(ret != nil, ret.Cert != nil)
+//@   callback verifier(c) pure
+//@   callback verifier(c) returns implies(ret1 == nil, ret0 != nil)
+//@   ensures[fatal]   implies(result != nil, m.failed)
+//@   ensures[keep]    implies(result == nil, m.failed == old(m.failed))
+//@   ensures[payload] implies(result == nil && flags.expectsPayload, m.payloadSet && m.result.RemoteIndex != 0)
+//@   ensures[cert]    implies(result == nil && flags.expectsCert, m.remoteCertSet && m.result.RemoteCert != nil)
+//@   requires[inv]    implies(m.remoteCertSet, m.result.RemoteCert != nil)
+//@   ensures[mono]    implies(old(m.payloadSet), m.payloadSet) && implies(old(m.remoteCertSet), m.remoteCertSet)
+//@   ensures[inv]     implies(m.remoteCertSet, m.result.RemoteCert != nil)
+//@   ensures[same]    m.result == old(m.result) && m.hs == old(m.hs)
+
+//@ func (*Machine).ProcessPacket
+//@   props C05 C07
+//@   ghost readok int = 0
+//@   requires m != nil && m.hs != nil && m.result != nil
+//@   requires[inv] implies(m.remoteCertSet, m.result.RemoteCert != nil)
+//@   callback getCred(v) pure
+//@   callback getCred(v) returns implies(ret != nil, ret.Cert != nil)
+//@   callback verifier(c) pure
+//@   callback verifier(c) returns implies(ret1 == nil, ret0 != nil)
+//@   ensures[dead]     implies(old(m.failed), result2 == ErrMachineFailed && result1 == nil && m.failed && readok == 0)
+//@   ensures[fatal]    implies(result2 != nil && readok >= 1, m.failed)
+//@   ensures[once]     readok <= 1
+//@   ensures[complete] implies(result1 != nil, result2 == nil && result1 == m.result && m.payloadSet && m.remoteCertSet && !m.failed && result1.EKey != nil && result1.DKey != nil && result1.RemoteCert != nil && readok == 1)
+//@   ensures[error]    implies(result2 != nil, result1 == nil && result0 == nil)
+
+//@ func (*Machine).requireComplete
+//@   props C05 C07
+//@   requires m != nil
+//@   ensures[ok]   (result == nil) == (old(m.payloadSet) && old(m.remoteCertSet))
+//@   ensures[fail] implies(result != nil, m.failed) && implies(result == nil, m.failed == old(m.failed))
+//@   assigns m.failed
+
+//@ func (*Machine).validateCert
+//@   props C05 C07
+//@   ghost recombined int = 0
+//@   requires m != nil && m.hs != nil && m.result != nil
+//@   callback getCred(v) pure
+//@   callback getCred(v) returns implies(ret != nil, ret.Cert != nil)
+//@   callback verifier(c) pure
+//@   callback verifier(c) requires[statickey] c != nil && bytes.Equal(c.PublicKey(), m.hs.PeerStatic()) && recombined == 1
+//@   callback verifier(c) returns implies(ret1 == nil, ret0 != nil)
+//@   callrequires Recombine same(arg1, payload.Cert) && same(arg2, m.hs.PeerStatic()) && arg0 == cert.Version(payload.CertVersion)
+//@   ensures[fatal]   implies(result != nil, m.failed)
+//@   ensures[set]     implies(result == nil, m.remoteCertSet && m.result.RemoteCert != nil && recombined == 1)
+//@   ensures[keep]    implies(result == nil, m.failed == old(m.failed) && m.payloadSet == old(m.payloadSet))
+//@   ensures[errkeep] implies(result != nil, m.remoteCertSet == old(m.remoteCertSet) && m.result.RemoteCert == old(m.result.RemoteCert))
+//@   assigns m.failed, m.myVersion, m.result.RemoteCert, m.remoteCertSet
